@@ -218,6 +218,7 @@ func (fx *FuncVC) mergeStates(preds []*State, hint string) *State {
 	}
 	pc := Or(pcs...)
 	out.pc = pc
+	out.split = pcs
 	if len(pc.S) > 60 {
 		c := fx.fresh("pc_"+hint, SBool)
 		fx.assumeRaw(Eq(c, pc))
